@@ -459,6 +459,18 @@ def bounded_filter_sort(tier, seed):
         n += 1
         if sorted(get_list_of_types(stats)) != sorted(set(k.type for k in stats)):
             bad += 1
+    # keys that differ by little: matching is exact, never "close enough" (times of neighbouring small steps late in a run)
+    near = [(1000.0, 1000.0005), (1000.0, 1000.0 + 2.0 ** -40), (1e-9, 2e-9), (0.1 + 0.2, 0.3), (5.0, np.nextafter(5.0, 6.0)), (0.0, 1e-300)]
+    for ta, tb in near:
+        for nr_b in (0, 1):
+            stats = {E(0, ta, 'u', 0): 1.0, E(0, tb, 'u', nr_b): 2.0, E(0, ta, '_recomputed', 0): False, E(0, tb, '_recomputed', nr_b): False}
+            for kw in (dict(type='u', time=ta), dict(type='u', time=tb), dict(time=tb), dict(type='u', recomputed=False), dict(recomputed=False)):
+                n += 1
+                got, want = filter_stats(dict(stats), **kw), spec_filter(stats, **kw)
+                if got != want:
+                    bad += 1
+                    if len(first) < 3:
+                        first.append(dict(stats={str(k): v for k, v in stats.items()}, kwargs=str(kw), got=[str(k) for k in got], want=[str(k) for k in want]))
     ob = dict(name='bounded:filter_sort_match_specification', status='proved' if not bad else 'refuted', backend='enumeration', seconds=0.0, kind='bounded', size=0,
               model=dict(first=first) if bad else None, reason='', path=0, counted=False)
     return dict(contract='bounded:stats_helper.filter_stats/sort_stats', prop='C14', inst={}, label='bounded', kind='bounded', obligations=[ob], canaries=[], paths=1, status='ok',
@@ -583,7 +595,58 @@ class LogLocalError(_ErrBase):
         yield 'canary:no_reference_call', len(st.exact_calls) == 0
 
 
-CONTRACTS = [LogGlobalError, LogLocalError, HooksBase, DefaultPostStep, DefaultPostIteration, LogRestartsPostStep, LogStepSizePostStep, LogIterationsPostStep,
+class AddHook(Contract):
+    """Controller.add_hook: a hook class is instantiated and appended unless an instance of EXACTLY that class is registered already
+    (a registered subclass or superclass instance is a different hook and does not suppress it); the registered hooks are otherwise untouched"""
+
+    prop = 'C14'
+    name = 'Controller.add_hook'
+    target = ('pySDC/core/controller.py', 'Controller.add_hook')
+    label = 'instance-proved'
+    native = False
+
+    def instances(self, tier):
+        return [dict(present=p) for p in ('none', 'same', 'subclass', 'superclass', 'subclass_and_same')]
+
+    def build(self, inst, mk):
+        from pySDC.core.hooks import Hooks
+        from contracts import ctrl
+
+        c, tr = ctrl.make_controller(mk, 1)
+
+        class Base(Hooks):
+            pass
+
+        class Mid(Base):
+            pass
+
+        class Sub(Mid):
+            pass
+
+        pre = dict(none=[], same=[Mid], subclass=[Sub], superclass=[Base], subclass_and_same=[Sub, Mid])[inst['present']]
+        c._Controller__hooks = list(c.hooks) + [k() for k in pre]
+        st = State(c=c, inst=inst, Mid=Mid, before=list(c.hooks), call=lambda: c.add_hook(Mid))
+        return st
+
+    def post(self, st, old, result, exc):
+        c, inst = st.c, st.inst
+        yield 'returns_normally', exc is None
+        if exc is not None:
+            return
+        had = inst['present'] in ('same', 'subclass_and_same')
+        now = list(c.hooks)
+        yield 'registered_hooks_kept_in_order', now[: len(st.before)] == st.before and all(a is b for a, b in zip(now, st.before))
+        if had:
+            yield 'already_registered:nothing_added', len(now) == len(st.before)
+        else:
+            yield 'not_registered:one_instance_of_exactly_that_class_appended', len(now) == len(st.before) + 1 and type(now[-1]) is st.Mid
+        yield 'exactly_one_instance_of_the_class_afterwards', sum(1 for h in now if type(h) is st.Mid) == 1
+
+    def canary(self, st, old, result, exc):
+        yield 'canary:never_adds', len(st.c.hooks) == len(st.before) and st.inst['present'] not in ('same', 'subclass_and_same')
+
+
+CONTRACTS = [AddHook, LogGlobalError, LogLocalError, HooksBase, DefaultPostStep, DefaultPostIteration, LogRestartsPostStep, LogStepSizePostStep, LogIterationsPostStep,
              LogSolutionPostStep, LogEmbeddedErrorPostStep, LogWorkPostStep, ReturnStats]
 EXTRAS = [bounded_filter_sort]
 UNDECIDED = ['uniqueness of keys across accepted steps follows from C06 (strictly increasing start times) and C09 (restart counter): composition not machine-checked',
